@@ -340,6 +340,8 @@ def main(argv):
                 "between PING and deadline, PONG just before / at / after the deadline); the engine's Instant::now() stamps are replaced by "
                 "the scripted time through a cfg(rzmq_verif) accessor; non-trivial = at least one heartbeat action; distinct by JSON")
     C.proof_stage(res, PROP, ["theories/Corr/EngCorr.vo"])
+    from . import optlib
+    optlib.options_stage(res, PROP, [38, 39], n_quick=100, theorems_note='C19_heartbeat_option_semantics')
     rng = random.Random(seed)
     cases = directed_cases(rng) + [gen_case(rng) for _ in range(400 if tier == "quick" else 5000)]
     for c in cases:
